@@ -123,6 +123,87 @@ def check_unparse(chk, prog):
                proof="every path with %s present passes an append of it" % f_)
 
 
+LOOKUPS = {"getprotobyname": (0,), "getservbyname": (0, 1), "gethostbyname": (0,)}
+
+
+def check_lookup_names(chk, prog):
+    """N4: the name handed to a protocol/service lookup is the text of a component built by one of the str constructors;
+    libc dereferences it, so the constructor must return an object that carries text (s != NULL) whenever it returns an
+    object at all - for every slice length, the empty slice included.  The constructor is analysed with CAP in its own unit
+    (all lengths, NULL and non-NULL source) and its return states are inspected."""
+    from .. import capdrv
+    u = prog.units["url.c"]
+    fields = {}
+    for f in u.functions.values():
+        if f.body is None:
+            continue
+        for c in X.calls_in(f.body):
+            cn = X.callee_name(c)
+            if cn not in LOOKUPS:
+                continue
+            for ai in LOOKUPS[cn]:
+                if ai >= len(c["ch"]) - 1:
+                    continue
+                a = X.strip(c["ch"][1 + ai])
+                arms = [a]
+                if a.get("k") == "cond":        # SPIF_STR_STR(obj): obj is NULL ? "" : obj->s
+                    arms = [X.strip(a["ch"][1]), X.strip(a["ch"][2])]
+                for a_ in arms:
+                    if a_.get("k") == "member" and a_.get("n") == "s":
+                        b = X.strip(a_["ch"][0])
+                        if b.get("k") == "member":
+                            fields.setdefault(b["n"], []).append((f, c))
+    ctors = {}
+    for f in u.functions.values():
+        if f.body is None:
+            continue
+        for x in walk(f.body):
+            if x.get("k") == "assign" and x.get("op") == "=":
+                t = X.strip(x["ch"][0])
+                if t.get("k") == "member" and t.get("n") in fields:
+                    r = X.strip(x["ch"][1])
+                    cn = X.callee_name(r) if r.get("k") == "call" else None
+                    g = prog.fn(cn or "")
+                    if g is not None and g.unit is not u:
+                        ctors.setdefault(cn, set()).add(t["n"])
+    n_ret = 0
+    for cn in sorted(ctors):
+        g = prog.fn(cn)
+        cp = Cap(prog, noreturn=NORETURN)
+        cp.record = False
+        try:
+            _, rets = capdrv.analyse(prog, g, cp)
+        except RecursionError:
+            chk.note("N4: %s not analysed (recursion limit)" % cn)
+            continue
+        bad = None
+        nobj = 0
+        for st in rets:
+            rv = st.ret
+            if rv is None or rv[0] not in ("p", "o"):
+                continue
+            nobj += 1
+            sv = st.heap.get((rv[1], "s"))
+            if sv is not None and sv[0] == "n":
+                bad = st
+                break
+        n_ret += nobj
+        uses = [fc for fld in ctors[cn] for fc in fields[fld]]
+        f0, c0 = uses[0]
+        if nobj == 0:
+            chk.note("N4: no object-returning path of %s could be explored; not decided" % cn)
+            continue
+        from ..lin import model
+        chk.ob("N4", f0.name, "lookup-name-present:%s<-%s" % ("/".join(sorted(ctors[cn])), cn), bad is None, loc=g.loc(g.body),
+               detail="%s can return an object that carries no text (s == NULL; e.g. %s, path %s); spif_url_parse builds `%s` with it and "
+                      "%s hands that text to %s, which dereferences it" % (
+                          cn, model(bad.cons) if bad is not None else "", " > ".join(bad.path[-4:]) if bad is not None else "",
+                          "/".join(sorted(ctors[cn])), f0.name, X.callee_name(c0)),
+               proof="every return state of %s that returns an object has s pointing to an allocated block (%d object-returning state(s))" % (cn, nobj))
+    chk.count("lookup_name_fields", len(fields), floor=1)
+    chk.count("component_constructors_analysed", len(ctors), floor=1)
+
+
 def run(tier="quick"):
     chk = Check("C14", level="other", tier=tier,
                 explanation="CAP (strict) over url.c: cursor and slice bounds, lookup results used only after being obtained and tested")
@@ -150,6 +231,8 @@ def run(tier="quick"):
                                cap_factory=lambda p: UrlCap(p, noreturn=NORETURN),
                                kinds={"lower", "upper", "null", "count", "cursor", "freed", "uninit", "slice"})
     check_unparse(chk, prog)
+    chk.rule("N4", "the constructors whose result is handed to a protocol/service lookup return objects that carry text")
+    check_lookup_names(chk, prog)
     parse = prog.need("spif_url_parse")
     slices = sum(1 for c in X.calls_in(parse.body) if (X.callee_name(c) or "").endswith("_from_buff"))
     chk.count("functions", n, floor=4)
